@@ -25,7 +25,7 @@ type FuncReport struct {
 func (w *World) newExec(fn *ssa.Function, spec *FuncSpec, beh *Behavior) *Exec {
 	x := &Exec{W: w, fn: fn, spec: spec, beh: beh, ghost: map[string]Value{}, assumed: map[string]bool{},
 		ordinal: map[ssa.Instruction]int{}, globals: map[string]*Obj{}, gvals: map[*Obj]Value{}, errIDs: map[string]*Term{},
-		maxPath: 4000, strs: map[string]*Term{}, bufSrc: map[*Obj]*Obj{}, aliasOf: map[*Obj]*Obj{}, lazy: map[*Obj]Value{}, conns: map[*Term]*Obj{}, boxed: map[*Term]Value{}}
+		maxPath: 4000, strs: map[string]*Term{}, bufSrc: map[*Obj]*Obj{}, aliasOf: map[*Obj]*Obj{}, lazy: map[*Obj]Value{}, conns: map[*Term]*Obj{}, boxed: map[*Term]Value{}, sidx: map[*Term]bool{}, unfolded: map[*Term]bool{}, recfact: map[*Term]bool{}}
 	x.bv = spec.Mode == "bv"
 	x.arr = spec.Options["repr"] == "arr"
 	x.theory = spec.Theory
@@ -236,6 +236,10 @@ func (w *World) verifyBehavior(rep *FuncReport, fn *ssa.Function, spec *FuncSpec
 		}
 		bindResults(penv, fn, res)
 		for i, c := range beh.Ensures {
+			if c.Abstract {
+				x.assume("A-DET")
+				continue
+			}
 			t, err := penv.evalBool(c.E)
 			label := c.Label
 			if label == "" {
@@ -386,6 +390,59 @@ func (w *World) VerifyLemma(l *LemmaSpec) *FuncReport {
 		x.fn = nil
 		x.obls = append(x.obls, &Obligation{Name: fmt.Sprintf("%s.lemma.%s[%s]", shortKey(l.Pkg), l.Name, label), Kind: "lemma", Props: props, Func: rep.Key, Behavior: "lemma",
 			Facts: append(append([]*Term(nil), x.gfacts...), st.Facts...), Goal: t, Text: c.Text, Theory: x.theory})
+	}
+	return rep
+}
+
+// VerifyRecDefs: the inductive step for every recursive spec function that declares a property:
+// assuming the property of the recursive applications inside the body, the body satisfies it.
+func (w *World) VerifyRecDefs(prop string) *FuncReport {
+	rep := &FuncReport{Key: "rec-definitions", Assumed: map[string]bool{}}
+	for _, k := range sortedKeys(w.Pures) {
+		pd := w.Pures[k]
+		if !pd.Rec || pd.Ensures == nil {
+			continue
+		}
+		spec := &FuncSpec{Pkg: pd.Pkg, Name: pd.Name, Key: pd.Pkg + ".rec." + pd.Name, Options: map[string]string{}, Loops: map[int]*LoopSpec{}}
+		beh := &Behavior{Name: "rec"}
+		x := w.newExec(nil, spec, beh)
+		st := &State{Heap: map[*Obj]Value{}}
+		env := &CEnv{x: x, st: st, vars: map[string]Value{}, pkg: pd.Pkg}
+		var as []*Term
+		for _, p := range pd.Params {
+			var v *Term
+			switch p.Type {
+			case "Bytes", "string":
+				v = Fresh(p.Name, SBytes)
+			case "bool":
+				v = Fresh(p.Name, SBool)
+			default:
+				v = Fresh(p.Name, SInt)
+			}
+			env.vars[p.Name] = v
+			as = append(as, v)
+		}
+		func() {
+			defer func() {
+				if r := recover(); r != nil {
+					rep.Errors = append(rep.Errors, fmt.Sprintf("rec %s: %v", pd.Name, r))
+				}
+			}()
+			// evaluating the body registers the property for every recursive application in it (induction hypothesis)
+			benv := env.clone()
+			benv.noUnfold = true
+			body := benv.eval(pd.Body)
+			penv := env.clone()
+			penv.noUnfold = true
+			penv.vars["result"] = body
+			goal, err := penv.evalBool(pd.Ensures)
+			if err != nil {
+				rep.Errors = append(rep.Errors, err.Error())
+				return
+			}
+			rep.Obls = append(rep.Obls, &Obligation{Name: shortKey(pd.Pkg) + ".rec." + pd.Name + "[inductive]", Kind: "lemma", Props: []string{prop}, Func: spec.Key, Behavior: "rec",
+				Facts: append(append([]*Term(nil), x.gfacts...), st.Facts...), Goal: goal, Text: "inductive step: " + pd.Ensures.String(), Theory: "T0"})
+		}()
 	}
 	return rep
 }
